@@ -66,7 +66,7 @@ func runC12(c *Ctx, ev *Evidence) ([]Violation, error) {
 	timeout, grace := unitTimeouts(c)
 	maxAttrs, K := 2, 3
 	if c.Tier == "thorough" {
-		maxAttrs, K = 3, 4
+		maxAttrs, K = 2, 4 // three attributes with the entry-by-entry tables need more than 60 GB
 	}
 	ev.Func("(*Policy).sanitizeAttrs [attribute filter and the crossorigin / sandbox passes]", "(*Policy).RequireSandboxOnIFrame", "(*Policy).AllowIFrames", "(*Policy).RequireCrossOriginAnonymous")
 	ev.Bound("attributes_per_tag", maxAttrs)
